@@ -14,7 +14,7 @@ COMMON_NOTE = ("Trusted: Lean 4.33 kernel (+ propext, Classical.choice, Quot.sou
 P = {
     "C01": ("proof", "Generator theorem (every validated file, every token sequence of any length, any payload type; C01_every_grammar): whenever Encode.encode, validated_ast_to_machine (FIRST fixpoint, closures, worklist with LALR merging by core, renumbering) and machine_to_table succeed in the model, the emitted parse loop over the emitted tables never panics and, whenever it ends, returns Ok iff the token kinds are derivable from the start symbol. Proof chain (≈3 500 lines, Proofs/{First,Closure,Cores,Build,Normalize,Generator,TableCells,Assemble,Universal,Encode}): FIRST map closed; closures closed and kernel-generated; worklist invariants through merge/append; normalisation is an isomorphism; table cells = item demands / transitions; hence machine+table pass every check of the validator (C01_generator_passes_validator), whose soundness (validB_sound ⇒ Sound ∧ Complete) and the generic LR theorems (C01_accepts_iff, C01_sentences_terminate, C01_no_panic_and_sound, C01_complete) finish. "
             "Tie to the code: the model equals the implementation at every stage (tokens … machine, table, text) on every generated grammar; independently the validator is run on the machine and table the *implementation* built, and the compiled emitted parsers are run against an Earley recogniser and the model driver. "
-            "Residue: halting of the driver on non-sentences and of the generator loops (fuel) is tested (watchdog), not proved; the name↔rank coding of symbols (Encode) is covered by the stage correspondence.",
+            "Residue: halting of the emitted driver on non-sentences is tested (watchdog), not proved (the generator's own loops are proved to terminate: C07_generator_total); the name↔rank coding of symbols (Encode) is covered by the stage correspondence.",
             "§0, §6.1–6.2, §7 C01", "generator theorem for every grammar + stage-by-stage model=implementation + validator on the implementation's automata + compiled-parser correspondence"),
     "C02": ("proof", "Theorems: for every validated file for which the generator stages succeed, whatever the emitted loop returns with Ok is a derivation tree of the grammar whose leaves are the input tokens themselves (payloads opaque), each once and in order, and it is the only derivation tree of that input (C02_every_grammar, via the generator theorem); the same for every validB-accepted automaton (C02_faithful, C02_tree, C02_that_tree, C02_unique). "
             "The user-visible value (userView, derive(Debug) rendering) is compared with the compiled parser's Ok value and with the Earley oracle's unique tree projected through the declared fieldsets; a panic on a sentence is a violation.",
@@ -23,7 +23,7 @@ P = {
             "Partial: for grammars with unproductive nonterminals the reference is a canonical LR(1) driver (oracle, no theorem); the actual number of iterator pulls of the compiled parser is observed with a counting iterator.",
             "§6.1(3), §7 C03", "first-offending-token theorem over validated automata + compiled-parser correspondence with counting iterator"),
     "C04": ("proof", "Theorems: for every validated file, whenever validated_ast_to_machine returns a machine m, machine_to_table either returns a table and m has no pair of items demanding different actions on one lookahead column, or reports a conflict that is such a pair — there is no third outcome (no panic), so a parser is emitted iff the generated automaton is conflict-free (C04_emitted_iff_conflict_free, from the generator invariants MachineOK + Proofs/NoPanic); for any automaton: C04_ok_conflict_free, C04_conflict_genuine, C04_setAction_*. The generated automaton is proved to be *the* LALR(1) automaton of the grammar — the canonical LR(1) collection merged by core (C17_is_lalr1) — w.r.t. a FIRST map proved closed and sound. "
-            "Residue: termination (fuel); independently the verdict is compared on every generated grammar with conflict-freeness of a specification-side canonical-LR(1)-merged-by-core construction (a different algorithm) and with the model.",
+            "Termination of the generator is C07_generator_total. Independently the verdict is compared on every generated grammar with conflict-freeness of a specification-side canonical-LR(1)-merged-by-core construction (a different algorithm) and with the model.",
             "§6.2, §6.3, §7 C04", "emitted-iff-conflict-free theorem on the generated automaton + verdict vs spec-side LALR(1) oracle"),
     "C05": ("proof", "A theorem cannot say 'rustc accepts'. Proved: every internal name chosen by create_unique_identifier is fresh w.r.t. all names in use and is recorded (C05_fresh). "
             "The emitted text is byte-equal to the model's rendering; rustc type-checks the emitted module for adversarial namings (generator-internal names, S, Eof, numeric-suffix neighbours, letterless names) with derive-less payload types. Known finding: zero-variant terminal enum.",
@@ -31,8 +31,8 @@ P = {
     "C06": ("proof", "Theorem: one public item per nonterminal with the declared name, in declaration order, struct for struct / enum for enum; the parse signature names the start type and the terminal enum (C06_items_and_signature). "
             "Field-level mirroring (Box<N>, payload types, `_` dropped, pub, unit-like collapse) is checked by reading the emitted text back and comparing with the declaration→Rust mapping of the property, and by byte equality with the model's rendering.",
             "§7 C06", "structure theorem + reader oracle on emitted text"),
-    "C07": ("proof", "Proved, stage by stage, for every input: the tokenizer never panics on any text (it equals the total scanner specification: C08_tokenize_total); the front-end parser never panics on any token list (C09_parse_correct) and cst_to_ast is total on every CST it returns (C07_cst_to_ast_total); validation has no panicking path (C07_validate_no_panic); once the grammar is coded, validated_ast_to_machine never hits a FIRST-map unwrap or index_map[i] failure and machine_to_table never hits rules[i], get_shift_dest(..).unwrap(), the 'Impossible: goto conflict' or a table index out of range (C07_generator_no_panic, from the generator invariants). "
-            "Partial: termination (the model's loops take fuel; FIRST fixpoint and worklist bounds are not theorems), Encode/text-emission unwraps after validation (get_type, unique names) and the parse-error slice are covered by the correspondence only: every stage runs under catch_unwind with a watchdog (and generate() in child processes) on valid, mutated, malformed and size-bound inputs; the model's panics are explicit (Res.panic at every unwrap/slice/index site) and its outcome class is compared.",
+    "C07": ("proof", "Proved, stage by stage, for every input: the tokenizer never panics on any text (it equals the total scanner specification: C08_tokenize_total); the front-end parser never panics on any token list (C09_parse_correct) and cst_to_ast is total on every CST it returns (C07_cst_to_ast_total); validation has no panicking path (C07_validate_no_panic); once the grammar is coded, validated_ast_to_machine never hits a FIRST-map unwrap or index_map[i] failure and machine_to_table never hits rules[i], get_shift_dest(..).unwrap(), the 'Impossible: goto conflict' or a table index out of range (C07_generator_no_panic, from the generator invariants); and validated_ast_to_machine terminates with a machine for every coded grammar — explicit bound genFuel: FIRST fixpoint ≤ nN·(nT+1) changing passes, closures bounded by the number of well-formed items, worklist bounded by a potential ≤ 2^C·(U+1) since no two states share a core — after which machine_to_table returns a table or a genuine conflict (C07_generator_total). "
+            "Partial: termination of the emitted driver on non-sentences, Encode/text-emission unwraps after validation (get_type, unique names) and the parse-error slice are covered by the correspondence only: every stage runs under catch_unwind with a watchdog (and generate() in child processes) on valid, mutated, malformed and size-bound inputs; the model's panics are explicit (Res.panic at every unwrap/slice/index site) and its outcome class is compared.",
             "§7 C07", "per-stage no-panic theorems + catch_unwind/watchdog correspondence"),
     "C08": ("proof", "Full for the tokenizer: for every source text, the character state machine of tokenize.rs (model with explicit byte indices and source slices) = the scanner specification Spec.scan, which states the documented rules with explicit maximal munch and a bracket stack: same tokens, payloads and byte positions, or the same Lex(index, char?) (C08_tokenize_eq_spec; ≈ 900 lines of proof). Spec is total and only reports Lex (C08_scan_total); `::` is always one token; every returned token sits in the source at its own start offset: slicing the source by its span gives its text (C08_positions). "
             "The implementation is compared with scan and with the model on every generated text and on single-character probes over all scalars < U+3100 (all scalars in thorough).",
@@ -64,7 +64,7 @@ P = {
             "§7 C16", "scanner theorems + re-layout differential"),
     "C17": ("proof", "Theorems, for every validated file for which the generator stages succeed: the item sets of the generated automaton, lookaheads included, are exactly the least fixed point of the LALR(1) propagation rules over its transition graph — augmented initial item with end of input; [B → ·γ, b] for every b ∈ FIRST(β a) in the state of [A → α·Bβ, a]; the dot moved along transitions, contributions of all predecessor states united (C17_items_exact); no two states have the same core and transitions are functional (C17_one_state_per_core); an ACTION cell is non-error iff an item of its state demands it there (reduce exactly on the item's lookaheads, accept on end of input, shift to the transition target), GOTO cells are exactly the nonterminal transitions, Err/None elsewhere (C17_cells, C17_empty_table). The FIRST map used by the rules is proved closed under the FIRST equations (complete) and sound (every terminal in FIRST(B) begins a sentential form derived from B; nullable marks are true). "
             "That is the textbook definition: the generated automaton is the canonical LR(1) collection merged by core — every canonical state lies inside exactly one machine state with the same cores, every item of a machine state (lookahead included) lies in a canonical state with that core, every machine state merges at least one canonical state (C17_is_lalr1, Proofs/Canonical). "
-            "Residue: termination (fuel) and the name↔rank coding; independently, tables read back from the emitted text are compared, modulo the renumbering from the start state, with the tables of an independent specification-side LALR(1) construction on every accepted grammar.",
+            "Residue: the name↔rank coding (stage correspondence); independently, tables read back from the emitted text are compared, modulo the renumbering from the start state, with the tables of an independent specification-side LALR(1) construction on every accepted grammar.",
             "§6.2, §6.3, §7 C17", "generated automaton = canonical LR(1) merged by core, exact cells, for every grammar + LALR(1) table oracle on emitted text"),
     "C18": ("proof", "Full: for every history of new/from_iter/insert/extend over any type with a lawful total order: strictly ascending vector, membership = the mathematical set, contains decides membership, iteration yields each element once ascending, equal element sets ⇒ equal vectors (C18_sorted, _refines, _contains, _iter, _ext). "
             "std sort/dedup/binary_search are modelled by contract; kiki::Oset is compared with BTreeSet and with the model on random histories over u32, (u8,u8), String.",
